@@ -23,7 +23,7 @@ def check_case(mode: str, names, endian, align, res: JobResult, tier="quick", on
     cfg = Cfg(endian=endian, align=align)
     case = sc.case_json(names, endian, align)
     try:
-        ins = sc.inputs(st, cfg, dev=1, limit=(10 if mode == "C01" else 14) if tier == "quick" else 60)
+        ins = sc.inputs(st, cfg, dev=1, limit=(10 if mode == "C01" else 14) if tier == "quick" else 32)
     except RefReject:
         res.extra["model_rejects"] += 1
         return
